@@ -332,6 +332,8 @@ def _reductions(case):
     for k, dflt in LAYOUT_DEFAULT.items():
         if case[k] != dflt:
             yield {**case, k: dflt}
+    if case["idtype"] in ("cat_int", "cat_unused"):
+        yield {**case, "idtype": "cat"}
     if case.get("nan", 0):
         yield {**case, "nan": 0}
     if case.get("ev") not in (None, "E0"):
@@ -483,7 +485,8 @@ def shards(tier, seed):
         for form in ("columns", "index"):
             for layout in ("visit", "joint", "covariate"):
                 extra = {"joint": {"ev": "E1"}, "covariate": {"ncov": 2}}.get(layout, {})
-                for sh in ([[2, 1, 1]] if q else [[2, 1, 1], [1, 2, 2]]):
+                # [1, 2, 1] / [1, 2, 2] with the mixed pattern: the only visit of individual 0 has no value at all
+                for sh in (([[2, 1, 1], [1, 2, 1]] if idtype.startswith("cat") else [[2, 1, 1]]) if q else [[2, 1, 1], [1, 2, 1], [1, 2, 2]]):
                     out.append({"family": "perm", "layout": layout, "shape": sh, "nans": "mixed", "part": [0, 1],
                                 "idtype": idtype, "form": form, "ages": "A0", **extra})
             out.append({"family": "event", "idtype": idtype, "form": form})
